@@ -261,7 +261,7 @@ class Executor(object):
 
     def op_newgen(self, tid, op):
         kind = op['kind']
-        if kind == 'one_step':
+        if kind == 'one_step' and hasattr(self.sg, 'one_step'):
             self.gens[op['g']] = self.sg.one_step
         else:
             cls = {'Min': self.sg.MinStepGenerator, 'Max': self.sg.MaxStepGenerator}[kind]
@@ -372,8 +372,11 @@ class Executor(object):
         return {'rec': r, 'diag': True}
 
     def op_cache(self, tid, op):
-        cache = self.fd.FD_RULES
+        cache = getattr(self.fd, 'FD_RULES', None)
         kind = op['kind']
+        if not isinstance(cache, dict) and kind != 'prewarm':
+            self._count('cache_op_unavailable')     # the cache global was renamed / replaced
+            return None
         if kind == 'clear':
             cache.clear()
             self._count('cache_clear')
